@@ -6,7 +6,7 @@ set -e
 PATCH="$1"; shift
 [ "$1" = "--" ] && shift
 S=$(mktemp -d /tmp/qv-scratch.XXXXXX)
-trap 'rm -rf "$S"' EXIT
+trap 'cd /verif && python3 -m qcheck.gc "$S/repo"; rm -rf "$S"' EXIT
 rsync -a --exclude target --exclude .git /repo/ "$S/repo/"
 (cd "$S/repo" && patch -p1 -s < "$PATCH")
 mkdir -p "$S/evid"
